@@ -115,7 +115,7 @@ static void gen_rand(SplitMix &g, ll count, bool big) {
 
 // large quantities: demands / capacities from 2^24 to 2^40, shares at and around 2^31 and 2^32 (DemandType is long long: nothing
 // in C13 restricts the quantities to int).  Costs stay <= 1000 and sources <= 24, so that every total cost is < 2^62 (the
-// OCaml driver prints native ints) and max demand / min capacity stays <= 250 (run time of solver and model).
+// OCaml driver prints native ints).  Run time of solver and model: see the two comments inside gen_huge.
 static ll huge_share(SplitMix &g) {
   static const ll pts[] = {1LL << 31, (1LL << 31) - 1, (1LL << 31) + 1, 1LL << 32, (1LL << 32) - 1, (1LL << 32) + 1, (1LL << 32) + 10,
                            (1LL << 33) + 5, 3LL << 31, (1LL << 31) + (1LL << 20), (3LL << 32) + 5, (1LL << 34) - 1};
